@@ -614,7 +614,7 @@ page_size_pre_hook(kdump_ctx_t *ctx, struct attr_data *attr,
 	size_t page_size = newval->number;
 
 	/* It must be a power of 2 */
-	if (page_size != (page_size & ~(page_size - 1)))
+	if (!page_size || page_size != (page_size & ~(page_size - 1)))
 		return set_error(ctx, KDUMP_ERR_CORRUPT,
 				 "Invalid page size: %zu", page_size);
 
